@@ -402,6 +402,8 @@ def run(ctx):
     corr, bad = T.run_shards("C19", groups, per=60)
     import reader_tie
     corr += reader_tie.obligations()
+    import trainer_run_tie
+    corr += trainer_run_tie.obligations(("equalities", "facts"))
     rule = ("logical lists (words, digits, walks, years, context strings, e-mails, sites, non-ASCII per encoding, spaces, $HEX "
             "look-alikes, every probed line-break / white-space character the encoding can represent, a sample of format "
             "characters, duplicates) x {plain, all-hex, per-line mixed, plain CRLF, count-prefixed} x {utf-8, latin-1, cp1251, "
